@@ -310,7 +310,9 @@ let exec_case (log : bool) (w : string list) : string =
   let kind = match dec_emu (il_fetch s addr) with
     | EFetch (len, i) -> Printf.sprintf "F:%d:%s" (int_of_nat len) (mnemonic i)
     | EFallback _ -> "FB" | ECrash -> "C" in
-  show_exec log (il_exec_at addr s) ^ " | k:" ^ kind
+  let n = if List.length w > 5 then ios (List.nth w 5) else 1 in
+  let s0 = if n = 1 then s else il_set_pc s addr in
+  show_exec log (if n = 1 then il_exec_at addr s else il_steps (nat_of_int n) s0) ^ " | k:" ^ kind
 
 
 (* ---- static metadata ------------------------------------------------------------------ *)
@@ -381,8 +383,19 @@ let den_case (w : string list) : string =
        | None -> "NODEN")
   | _ -> "NOFETCH"
 
+(* spec <hex> <addr> <regs> <mem> <fill>: the documented effect of the instruction *)
+let spec_case (w : string list) : string =
+  let (addr, s) = exec_state w in
+  match dec_emu (il_fetch s addr) with
+  | EFetch (_, i) ->
+      (match sp_exec i addr s with
+       | Some s1 -> show_exec false (XOk s1)
+       | None -> "NOSPEC")
+  | _ -> "NOFETCH"
+
 let handle (w : string list) : string =
   match w with
+  | "spec" :: rest -> spec_case rest
   | "info" :: rest -> info_case rest
   | "render" :: rest -> render_case rest
   | "den" :: rest -> den_case rest
